@@ -1419,3 +1419,687 @@ func init() {
 		},
 	})
 }
+
+// ---------------------------------------------------------------- one call site entered again while its call is under way
+//
+// A method acts on the receiver it was taken from -- also when the very same
+// call site (the same member expression of the program text) is evaluated again,
+// with another receiver, between the lookup of the method and its call: while
+// the arguments of the call are being evaluated (recursion through an argument)
+// or while a match binding / a function result holds the bound method
+// (recursion inside the match body). Every level of the recursion has its own
+// receiver rs[n]; level n prints what its call gave, so the expected output is
+// the methods of prototypes.go applied level by level, computed in Go.
+
+type c16V = interface{} // float64, string, bool, nil, []interface{}, map[string]interface{}
+
+func c16VShow(v c16V, quote bool) string {
+	switch x := v.(type) {
+	case nil:
+		return "null"
+	case float64:
+		return c16F(x)
+	case bool:
+		return fmt.Sprint(x)
+	case string:
+		if quote {
+			return `"` + x + `"`
+		}
+		return x
+	case []interface{}:
+		p := make([]string, len(x))
+		for i, e := range x {
+			p[i] = c16VShow(e, true)
+		}
+		return "[" + strings.Join(p, ", ") + "]"
+	case map[string]interface{}:
+		ks := make([]string, 0, len(x))
+		for k := range x {
+			ks = append(ks, k)
+		}
+		sort.Strings(ks)
+		for i, k := range ks {
+			ks[i] = `"` + k + `": ` + c16VShow(x[k], true)
+		}
+		return "{" + strings.Join(ks, ", ") + "}"
+	}
+	panic("c16VShow")
+}
+
+// c16VText: the value as a jqawk literal (js = false) or as JSON (js = true)
+func c16VText(v c16V, js bool) string {
+	switch x := v.(type) {
+	case nil:
+		return "null"
+	case float64:
+		if js {
+			return c16F(x)
+		}
+		return numLit(x)
+	case bool:
+		return fmt.Sprint(x)
+	case string:
+		if js {
+			return jsonString(x)
+		}
+		return mustStrLit(x)
+	case []interface{}:
+		p := make([]string, len(x))
+		for i, e := range x {
+			p[i] = c16VText(e, js)
+		}
+		return "[" + strings.Join(p, ", ") + "]"
+	case map[string]interface{}:
+		ks := make([]string, 0, len(x))
+		for k := range x {
+			ks = append(ks, k)
+		}
+		sort.Strings(ks)
+		for i, k := range ks {
+			if js {
+				ks[i] = jsonString(k) + ": " + c16VText(x[k], js)
+			} else {
+				ks[i] = mustStrLit(k) + ": " + c16VText(x[k], js)
+			}
+		}
+		return "{" + strings.Join(ks, ", ") + "}"
+	}
+	panic("c16VText")
+}
+
+func c16VKind(v c16V) byte {
+	switch v.(type) {
+	case float64:
+		return 'n'
+	case string:
+		return 's'
+	case []interface{}:
+		return 'a'
+	case map[string]interface{}:
+		return 'o'
+	}
+	return 'z'
+}
+
+var c16MethodsOf = map[byte]string{'s': " length split lower upper ", 'n': " floor ceil round ", 'a': " length push pop popfirst contains sort ", 'o': " length pluck "}
+
+// c16Method: method m of recv's prototype applied to args, as src/prototypes.go documents it.
+// fail = a runtime error (no such method: the call of a null member; wrong argument count or kind).
+func c16Method(m string, recv c16V, args []c16V) (res, after c16V, fail bool) {
+	if !strings.Contains(c16MethodsOf[c16VKind(recv)], " "+m+" ") {
+		return nil, recv, true
+	}
+	switch x := recv.(type) {
+	case string:
+		switch m {
+		case "length":
+			return float64(len(x)), recv, false
+		case "upper":
+			return c16AsciiCase(x, true), recv, false
+		case "lower":
+			return c16AsciiCase(x, false), recv, false
+		case "split":
+			if len(args) == 0 {
+				return nil, recv, true
+			}
+			sep, ok := args[0].(string)
+			if !ok {
+				return nil, recv, true
+			}
+			var out []interface{}
+			for _, p := range strings.Split(x, sep) {
+				out = append(out, p)
+			}
+			return out, recv, false
+		}
+	case float64:
+		switch m {
+		case "floor":
+			return math.Floor(x), recv, false
+		case "ceil":
+			return math.Ceil(x), recv, false
+		case "round":
+			return math.Round(x), recv, false
+		}
+	case []interface{}:
+		switch m {
+		case "length":
+			return float64(len(x)), recv, false
+		case "push":
+			if len(args) != 1 {
+				return nil, recv, true
+			}
+			n := append(append([]interface{}{}, x...), args[0])
+			return n, n, false
+		case "pop", "popfirst":
+			if len(args) != 0 {
+				return nil, recv, true
+			}
+			if len(x) == 0 {
+				return nil, recv, false
+			}
+			if m == "pop" {
+				return x[len(x)-1], append([]interface{}{}, x[:len(x)-1]...), false
+			}
+			return x[0], append([]interface{}{}, x[1:]...), false
+		case "contains":
+			if len(args) != 1 {
+				return nil, recv, true
+			}
+			for _, e := range x {
+				if e == args[0] { // generated: scalars of one kind
+					return true, recv, false
+				}
+			}
+			return false, recv, false
+		case "sort":
+			n := append([]interface{}{}, x...)
+			sort.SliceStable(n, func(i, j int) bool {
+				if a, ok := n[i].(float64); ok {
+					return a < n[j].(float64)
+				}
+				return n[i].(string) < n[j].(string)
+			})
+			return n, recv, false
+		}
+	case map[string]interface{}:
+		switch m {
+		case "length":
+			return float64(len(x)), recv, false
+		case "pluck":
+			out := map[string]interface{}{}
+			for _, a := range args {
+				var k string
+				switch kk := a.(type) {
+				case string:
+					k = kk
+				case float64:
+					k = c16F(kk)
+				default:
+					return nil, recv, true
+				}
+				out[k] = x[k] // absent: null
+			}
+			return out, recv, false
+		}
+	}
+	panic("c16Method " + m)
+}
+
+type c16Slot struct {
+	rec bool // the recursive call stands here
+	own bool // ak[n], the value of the level's own
+	val c16V
+}
+
+type c16Re struct {
+	m     string
+	D     int    // the call site is entered D times, each inside the previous one
+	rs    []c16V // the receiver of each level (plus an unused last entry)
+	ak    []c16V // ak[n]: what level n returns to the call under way one level up (ak[D]: the innermost return)
+	tmpl  []c16Slot
+	mech  int // 0 recursion inside the argument list; 1 the method held by a match binding across the recursion; 2 held, called before and after; 3 held, the recursion inside the argument list of the held method's call
+	form  int // how the call (mech 0) / the member expression (mech 1, 2) is written
+	place int // where the receiver stands
+	wrap  int // how the recursive call is written
+	runs  int // how often the rule starts the recursion (the second time every call site has been evaluated before)
+}
+
+const c16ReGetter = 13 // form: get(n)(A), the bound method is a function result
+
+var c16RePlaces = []string{"rs[n]", "parameter", "$.rs[n]", "w.t[n]", "function result", "local variable", "global variable"}
+var c16ReWraps = []string{"f(n + 1)", "g(n + 1)", "h(f(n + 1))", "[f(n + 1)][0]", "{k: f(n + 1)}.k", "(f(n + 1))", "(match (f(n + 1)) { q => q })"}
+
+// sim: the output of the program; collapse = every call made after a recursion acts on the innermost level's receiver
+// (what a per-call-site cell would do), only used to tell whether the case can see such a fault
+func (c *c16Re) sim(collapse bool) (string, bool) {
+	rs := append([]c16V{}, c.rs...)
+	var out strings.Builder
+	failed := false
+	call := func(ri int, args []c16V) c16V {
+		res, after, fail := c16Method(c.m, rs[ri], args)
+		rs[ri] = after
+		if fail {
+			failed = true
+		}
+		return res
+	}
+	var f func(n int) c16V
+	f = func(n int) c16V {
+		if failed {
+			return nil
+		}
+		if n == c.D {
+			return c.ak[c.D]
+		}
+		late := n
+		if collapse {
+			late = c.D - 1
+		}
+		var args []c16V
+		if c.mech == 0 || c.mech == 3 {
+			for _, s := range c.tmpl {
+				v := s.val
+				if s.own {
+					v = c.ak[n]
+				}
+				if s.rec {
+					v = f(n + 1)
+					if failed {
+						return nil
+					}
+				}
+				args = append(args, v)
+			}
+		} else {
+			if c.mech == 2 {
+				for _, s := range c.tmpl {
+					if s.rec || s.own {
+						args = append(args, c.ak[n])
+					} else {
+						args = append(args, s.val)
+					}
+				}
+				x := call(n, args)
+				if failed {
+					return nil
+				}
+				out.WriteString(fmt.Sprintf("%d pre %s\n", n, c16VShow(x, false)))
+				args = nil
+			}
+			v := f(n + 1)
+			if failed {
+				return nil
+			}
+			for _, s := range c.tmpl {
+				switch {
+				case s.rec:
+					args = append(args, v)
+				case s.own:
+					args = append(args, c.ak[n])
+				default:
+					args = append(args, s.val)
+				}
+			}
+		}
+		x := call(late, args)
+		if failed {
+			return nil
+		}
+		out.WriteString(fmt.Sprintf("%d %s\n", n, c16VShow(x, false)))
+		return c.ak[n]
+	}
+	for k := 0; k < c.runs && !failed; k++ {
+		f(0)
+	}
+	if !failed {
+		out.WriteString(c16VShow(rs, false) + "\n")
+	}
+	return out.String(), failed
+}
+
+func (c *c16Re) build(r *rand.Rand) Case {
+	var aux c15Aux
+	doc := c.place == 2
+	RS, AK := "rs", "ak"
+	switch c.place {
+	case 2:
+		RS, AK = "$.rs", "$.ak"
+	case 3:
+		RS = "w.t"
+	}
+	R := RS + "[n]"
+	params, first, next := "n, x, v", "f(0)", "f(n + 1)"
+	pre := ""
+	switch c.place {
+	case 1:
+		R, params, first, next = "s", "s, n, x, v", "f("+RS+"[0], 0)", "f("+RS+"[n + 1], n + 1)"
+	case 4:
+		R = "recv(n)"
+	case 5:
+		R, params, pre = "loc", "n, x, v, loc", "  loc = "+RS+"[n]\n"
+	case 6:
+		R, pre = "gv", "  gv = "+RS+"[n]\n"
+	}
+	rec := next
+	switch c.wrap {
+	case 1:
+		rec = "g(n + 1)"
+	case 2:
+		rec = "h(" + next + ")"
+	case 3:
+		rec = "[" + next + "][0]"
+	case 4:
+		rec = "{k: " + next + "}.k"
+	case 5:
+		rec = "(" + next + ")"
+	case 6:
+		rec = "(match (" + next + ") { q => q })"
+	}
+	args := func(recText string, own bool) string {
+		p := make([]string, len(c.tmpl))
+		for i, s := range c.tmpl {
+			switch {
+			case s.rec && own || s.own:
+				p[i] = AK + "[n]"
+			case s.rec:
+				p[i] = recText
+			default:
+				p[i] = c16VText(s.val, false)
+			}
+		}
+		return strings.Join(p, ", ")
+	}
+	var body string
+	getter := false
+	if c.mech == 0 {
+		var callText string
+		if c.form == c16ReGetter {
+			getter = true
+			callText = "get(n)(" + args(rec, false) + ")"
+		} else {
+			callText = c15FormText(r, &aux, c.form, R, c.m, args(rec, false))
+		}
+		body = pre + "  x = " + callText + "\n  print n, x\n"
+	} else {
+		var member string
+		switch c.form {
+		case 0:
+			member = R + "." + c.m
+		case 1:
+			member = R + "[" + c15Quote(r, c.m) + "]"
+		case 2:
+			c15Add(&aux.kvars, c.m)
+			member = R + "[k" + c.m + "]"
+		case 3:
+			member = "(" + R + "." + c.m + ")"
+		default:
+			getter = true
+			member = "get(n)"
+		}
+		body = pre + "  match (" + member + ") { p => {\n"
+		if c.mech == 2 {
+			body += "    x = p(" + args("", true) + ")\n    print n, 'pre', x\n"
+		}
+		if c.mech == 3 {
+			body += "    x = p(" + args(rec, false) + ")\n    print n, x\n  } }\n\n"
+		} else {
+			body += "    v = " + rec + "\n    x = p(" + args("v", false) + ")\n    print n, x\n  } }\n\n"
+		}
+	}
+	var funcs string
+	if c.wrap == 1 {
+		funcs += "function g(n) {\n  return " + strings.ReplaceAll(next, "n + 1", "n") + "\n}\n"
+	}
+	if c.wrap == 2 {
+		funcs += "function h(y) {\n  return y\n}\n"
+	}
+	if getter {
+		funcs += "function get(n) {\n  return " + RS + "[n]." + c.m + "\n}\n"
+	}
+	if c.place == 4 {
+		funcs += "function recv(n) {\n  return " + RS + "[n]\n}\n"
+	}
+	funcs += aux.funcs() + "function f(" + params + ") {\n  if (n == " + fmt.Sprint(c.D) + ") {\n    return " + AK + "[" + fmt.Sprint(c.D) + "]\n  }\n" + body + "  return " + AK + "[n]\n}\n"
+	setup := aux.prelude("  ")
+	input := "{}"
+	if doc {
+		input = `{"rs": ` + c16VText(c.rs, true) + `, "ak": ` + c16VText(c.ak, true) + `}`
+	} else {
+		if c.place == 3 {
+			setup += "  w = {t: " + c16VText(c.rs, false) + "}\n"
+		} else {
+			setup += "  rs = " + c16VText(c.rs, false) + "\n"
+		}
+		setup += "  ak = " + c16VText(c.ak, false) + "\n"
+	}
+	head := "{\n"
+	var files []File
+	if !doc && chance(r, 0.5) {
+		head = "BEGIN {\n"
+	} else {
+		files = []File{{Name: "in.json", Data: []byte(input)}}
+	}
+	prog := funcs + head + setup + strings.Repeat("  "+first+"\n", c.runs) + "  print " + RS + "\n}\n"
+	want, failed := c.sim(false)
+	wantClass := "ok"
+	if failed {
+		wantClass = "runtime"
+	}
+	bad, badFailed := c.sim(true)
+	sees := fmt.Sprint(bad != want || badFailed != failed)
+	mech := []string{"recursion in the argument list", "held by a match binding", "held, called before and after", "held, recursion in its argument list"}[c.mech]
+	meta := metaProg(prog, "input", input, "row", c.m, "col", mech, "place", c16RePlaces[c.place], "levels", fmt.Sprint(c.D), "sees-shared-cell", sees)
+	cs := Case{Req: RunReq(prog, nil, files, false), Fields: []string{"class", "out"}, Meta: meta, NonTrivial: c09NT}
+	if c.place == 6 {
+		// a global variable as receiver: the bound method refers to the variable's cell, the deeper levels assign to it;
+		// compared with the model only
+		cs.Oracle = c16OkOrRuntime
+		return cs
+	}
+	cs.Oracle = func(i Resp) string {
+		if i["class"] != wantClass || string(i.Bytes("out")) != want {
+			return fmt.Sprintf("%s, %s, %d levels, receiver %s: got %s %q, want %s %q (every level's call acts on that level's own receiver)", c.m, mech, c.D, c16RePlaces[c.place], i["class"], string(i.Bytes("out")), wantClass, want)
+		}
+		return ""
+	}
+	return cs
+}
+
+var c16ReStrings = []string{"a;b,c", "x,y;z", "Hello, World", "q;;r,s", "ab", "", "A-b-C", "m,n,o;p", "Zz;yY", ";lead", "trail,", "b;a;b"}
+var c16ReSeps = []string{",", ";", "", "-", "b", ", ", ";;", "a"}
+var c16ReNums = []float64{2.5, -2.5, 7, 0.49, -3.5, 12.75, 1e15 + 0.5, -0.25, 3.999, 100.5, -7.5, 0.5}
+var c16ReKeys = []string{"a", "b", "c", "k1", "zz", "x y", "10"}
+var c16ReScalars = []c16V{1.0, 2.5, -3.0, "one", "", "x,y", nil, true, false, 40.0}
+
+func c16ReRecv(r *rand.Rand, kind byte, strs bool) c16V {
+	switch kind {
+	case 's':
+		return pick(r, c16ReStrings)
+	case 'n':
+		return pick(r, c16ReNums)
+	case 'a':
+		out := []interface{}{}
+		for k := r.Intn(5); k > 0; k-- {
+			if strs {
+				out = append(out, pick(r, []string{"a", "b", "c", "B", "zz", "10", "9"}))
+			} else {
+				out = append(out, pick(r, []float64{1, 2, 3, 10, 9, -4, 2.5, 0}))
+			}
+		}
+		return out
+	case 'o':
+		out := map[string]interface{}{}
+		for k := r.Intn(5); k > 0; k-- {
+			out[pick(r, c16ReKeys)] = pick(r, []c16V{1.0, 2.0, "s", "t", nil, true, []interface{}{1.0, "u"}, map[string]interface{}{"in": 1.0}})
+		}
+		return out
+	}
+	panic("c16ReRecv")
+}
+
+// c16ReCase: one random case for method m on receivers of the given kinds (one kind letter per level is drawn from kinds)
+func c16ReCase(r *rand.Rand, m, kinds string, mech int, badArgs bool) Case {
+	var best *c16Re
+	for try := 0; try < 6; try++ {
+		c := &c16Re{m: m, mech: mech, D: 2 + r.Intn(3), runs: 1 + r.Intn(2)}
+		strs := chance(r, 0.5)
+		for n := 0; n < c.D; n++ {
+			c.rs = append(c.rs, c16ReRecv(r, kinds[r.Intn(len(kinds))], strs))
+		}
+		c.rs = append(c.rs, "end")
+		// what the levels hand upwards: of the kind the method's argument wants
+		arg := func() c16V {
+			switch m {
+			case "split":
+				return pick(r, c16ReSeps)
+			case "contains":
+				if strs {
+					return pick(r, []string{"a", "b", "c", "B", "zz", "10", "9"})
+				}
+				return pick(r, []float64{1, 2, 3, 10, 9, -4, 2.5, 0})
+			case "pluck":
+				if chance(r, 0.15) {
+					return 10.0
+				}
+				return pick(r, c16ReKeys)
+			case "push":
+				if chance(r, 0.15) {
+					return []interface{}{7.0}
+				}
+			}
+			return pick(r, c16ReScalars)
+		}
+		for n := 0; n <= c.D; n++ {
+			c.ak = append(c.ak, arg())
+		}
+		rec, own, lit := c16Slot{rec: true}, c16Slot{own: true}, func(v c16V) c16Slot { return c16Slot{val: v} }
+		var tmpls [][]c16Slot
+		switch m {
+		case "split":
+			tmpls = [][]c16Slot{{rec}, {rec}, {rec, lit(1.0)}, {lit(","), rec}, {own, rec}, {own, rec}, {rec, rec}}
+		case "push", "contains":
+			tmpls = [][]c16Slot{{rec}}
+			if badArgs {
+				tmpls = [][]c16Slot{{rec, lit(1.0)}, {rec, rec}}
+			}
+		case "pop", "popfirst":
+			tmpls = [][]c16Slot{{}}
+			if mech == 0 || mech == 3 || badArgs {
+				tmpls = [][]c16Slot{{rec}}
+			}
+		case "pluck":
+			tmpls = [][]c16Slot{{rec}, {lit("a"), rec}, {rec, lit("zz"), rec}, {rec, lit("b"), lit("b")}, {lit(10.0), rec}, {own, rec}, {own, rec, own}, {rec, own}}
+			if badArgs {
+				tmpls = [][]c16Slot{{rec, lit(true)}, {lit(nil), rec}}
+			}
+		default: // the methods that ignore their arguments
+			tmpls = [][]c16Slot{{rec}, {rec}, {lit(1.0), rec}, {rec, lit("x"), lit(nil)}, {rec, rec}, {own, rec}}
+			if mech != 0 && mech != 3 {
+				tmpls = append(tmpls, []c16Slot{})
+			}
+		}
+		if m == "split" && badArgs {
+			tmpls = [][]c16Slot{{lit(1.0), rec}, {lit(nil), rec}}
+			if mech != 0 && mech != 3 {
+				tmpls = append(tmpls, []c16Slot{})
+			}
+		}
+		c.tmpl = pick(r, tmpls)
+		c.place = r.Intn(len(c16RePlaces) - 1)
+		if chance(r, 0.06) {
+			c.place = 6
+		}
+		c.wrap = r.Intn(len(c16ReWraps))
+		if chance(r, 0.3) {
+			c.wrap = 0
+		}
+		if mech == 0 {
+			c.form = r.Intn(c16ReGetter + 1)
+			if chance(r, 0.25) {
+				c.form = 0
+			}
+		} else {
+			c.form = r.Intn(5)
+		}
+		if (c.place == 1 || c.place >= 4) && (mech == 0 && c.form == c16ReGetter || mech != 0 && c.form == 4) {
+			c.place = 0 // the getter names rs[n] (or $.rs[n], w.t[n]) itself
+		}
+		best = c
+		want, failed := c.sim(false)
+		bad, badFailed := c.sim(true)
+		if bad != want || badFailed != failed {
+			break // this one tells the levels' receivers apart
+		}
+	}
+	return best.build(r)
+}
+
+var c16ReMethods = []struct{ m, kinds string }{
+	{"length", "s"}, {"split", "s"}, {"lower", "s"}, {"upper", "s"}, {"floor", "n"}, {"ceil", "n"}, {"round", "n"},
+	{"length", "a"}, {"push", "a"}, {"pop", "a"}, {"popfirst", "a"}, {"contains", "a"}, {"sort", "a"}, {"length", "o"}, {"pluck", "o"}, {"length", "sao"},
+}
+
+// c16ReFamily: the cases of one mechanism set
+func c16ReFamily(r *rand.Rand, tier string, emit func(Case), mechs []int) {
+	n := tierN(tier, 36, 400)
+	for _, mk := range c16ReMethods {
+		for _, mech := range mechs {
+			k := n
+			if (mech == 0 || mech == 3) && (mk.m == "pop" || mk.m == "popfirst") {
+				k = 4 // an argument is an error for these two: the innermost call fails
+			}
+			for i := 0; i < k; i++ {
+				emit(c16ReCase(r, mk.m, mk.kinds, mech, false))
+			}
+			// missing / surplus / wrong-kind arguments: the runtime error comes from the right level, after the output of the levels below
+			if mk.m == "push" || mk.m == "contains" || mk.m == "pluck" || mk.m == "split" || (mech == 1 || mech == 2) && (mk.m == "pop" || mk.m == "popfirst") {
+				for i := 0; i < n/6+1; i++ {
+					emit(c16ReCase(r, mk.m, mk.kinds, mech, true))
+				}
+			}
+			// receivers of other kinds at some levels: the method does not exist there (runtime error at that level's call)
+			for i := 0; i < n/9+1; i++ {
+				emit(c16ReCase(r, mk.m, mk.kinds+mk.kinds+pick(r, []string{"s", "n", "a", "o"}), mech, false))
+			}
+		}
+	}
+}
+
+func init() {
+	register(Family{
+		Name: "reentrant-callsite", Prop: "C16",
+		Rule: "one method call site entered again, with another receiver, while its own argument list is being evaluated: a recursive function f(n) whose body calls rs[n].m(... f(n + 1) ...), 2-4 levels, for EVERY method of every prototype (string length split lower upper, number floor ceil round, array length push pop popfirst contains sort, object length pluck, length on receivers of mixed kinds); the recursive call stands in any argument position (also twice; the other positions hold literals or the level's own ak[n]), written directly, through a second function (indirect recursion), an identity function, an array / object literal, parentheses, a match expression; the call in each of the 13 syntactic forms of method-forms plus get(n)(args) (the bound method as a function result); the receiver as rs[n], a parameter, $.rs[n] of the document, w.t[n], a function result, a local variable, a global variable (model only: the bound method follows the variable); every level prints its result, the recursion is started once or twice, the receivers are printed at the end; smaller streams with missing / surplus / wrong-kind arguments and with receivers of another kind at some levels (runtime error from the right level); oracle: prototypes.go's contract applied level by level to that level's own receiver, computed in Go; also compared with the model; matrix method x mechanism",
+		Gen: func(r *rand.Rand, tier string, emit func(Case)) {
+			// the shape the gap was found with: a separator computed by a recursive call that splits another string at the same place
+			for depth := 1; depth <= 4; depth++ {
+				prog := "function first(s, n) {\n  if (n == 0) {\n    return \",\"\n  }\n  pieces = s.split(first(\";\", n - 1))\n  return pieces[0]\n}\nBEGIN {\n  print first(\"a;b,c\", " + fmt.Sprint(depth) + ")\n  print \"a;b,c\".split(\";\")\n}\n"
+				want := "a\n[\"a\", \"b,c\"]\n"
+				if depth == 1 {
+					want = "a;b\n[\"a\", \"b,c\"]\n"
+				}
+				emit(Case{Req: RunReq(prog, nil, nil, false), Fields: []string{"class", "out"}, Meta: metaProg(prog, "row", "split", "col", "recursion in the argument list"), NonTrivial: c09NT,
+					Oracle: func(i Resp) string {
+						if i["class"] != "ok" || string(i.Bytes("out")) != want {
+							return fmt.Sprintf("s.split(first(\";\", n - 1)) must split s: got %s %q, want %q", i["class"], string(i.Bytes("out")), want)
+						}
+						return ""
+					}})
+			}
+			c16ReFamily(r, tier, emit, []int{0})
+		},
+	})
+	register(Family{
+		Name: "held-method-reentry", Prop: "C16",
+		Rule: "a bound method held while the member expression it came from is evaluated again with other receivers: match (rs[n].m) { p => { v = f(n + 1); x = p(.. v ..) } } inside the recursive f, 2-4 levels, every method of every prototype (pop and popfirst included), the member expression written R.m, R[\"m\"], R[kvar], (R.m) or get(n); optionally p is called before the recursion as well, or the recursion stands inside the argument list of p's call; same receiver places, argument positions and ill-formed streams as reentrant-callsite; second part: a loop over i calling get(i)(get((i + 1) % D)(..)) for the methods that ignore their arguments (the getter's member expression is evaluated for another receiver between taking the method and calling it); oracle: every call acts on the receiver its method was taken from, computed in Go; also compared with the model; matrix method x mechanism",
+		Gen: func(r *rand.Rand, tier string, emit func(Case)) {
+			c16ReFamily(r, tier, emit, []int{1, 2, 3})
+			for _, mk := range c16ReMethods {
+				if mk.m != "length" && mk.m != "lower" && mk.m != "upper" && mk.m != "floor" && mk.m != "ceil" && mk.m != "round" && mk.m != "sort" {
+					continue
+				}
+				for i := tierN(tier, 6, 60); i > 0; i-- {
+					D := 2 + r.Intn(3)
+					strs := chance(r, 0.5)
+					var rs []c16V
+					want := ""
+					for k := 0; k < D; k++ {
+						rs = append(rs, c16ReRecv(r, mk.kinds[r.Intn(len(mk.kinds))], strs))
+						res, _, _ := c16Method(mk.m, rs[k], nil)
+						want += fmt.Sprintf("%d %s\n", k, c16VShow(res, false))
+					}
+					want += c16VShow(rs, false) + "\n"
+					inner := pick(r, []string{"get((i + 1) % " + fmt.Sprint(D) + ")()", "get((i + 1) % " + fmt.Sprint(D) + ")(get((i + 2) % " + fmt.Sprint(D) + ")(i))", "1, get(" + fmt.Sprint(D-1) + " - i)(2)"})
+					prog := "function get(k) {\n  return rs[k]." + mk.m + "\n}\nBEGIN {\n  rs = " + c16VText(rs, false) + "\n  for (i = 0; i < " + fmt.Sprint(D) + "; i++) {\n    x = get(i)(" + inner + ")\n    print i, x\n  }\n  print rs\n}\n"
+					emit(Case{Req: RunReq(prog, nil, nil, false), Fields: []string{"class", "out"}, Meta: metaProg(prog, "row", mk.m, "col", "getter in a loop"), NonTrivial: c09NT,
+						Oracle: func(i Resp) string {
+							if i["class"] != "ok" || string(i.Bytes("out")) != want {
+								return fmt.Sprintf("%s through a getter in a loop: got %s %q, want %q", mk.m, i["class"], string(i.Bytes("out")), want)
+							}
+							return ""
+						}})
+				}
+			}
+		},
+	})
+}
